@@ -403,7 +403,11 @@ LUnlock(c) ==
 
 -----------------------------------------------------------------------------
 
-Tick == /\ now < MaxNow /\ ~InCtor
+\* Only an unlimited part reads the clock after its start (tokens = now while now < finish); a timed part hands out
+\* start + offset, and the only clock reading of a tree without unlimited parts is its lazy start.  For such a tree the
+\* clock values 0 and 1 ("started at once" / "started later") are all that can be told apart.
+ClockNeed == IF \E m \in 1..Len(tree.kind) : tree.kind[m] = "unl" THEN MaxNow ELSE 1
+Tick == /\ now < MaxNow /\ now < ClockNeed /\ ~InCtor
         /\ now' = now + 1
         /\ hist' = Append(hist, [c |-> "clock", a |-> "Tick", node |-> 0, pc |-> "", depth |-> 0, ret |-> <<>>])
         /\ UNCHANGED <<tree, L, head, readers, writer, stack, ncalls, lastT, finT, snap, fired, observedEnd, viol, lastRet, cst, probes, probing>>
